@@ -31,6 +31,10 @@ CHECKS = {
                 text="Fit.tla is the fit pipeline as a state machine (validate, shim strip-or-pass, nondeterministic but constrained minimiser, success assertion, stitch); TLC checks InBounds, FixedHeld, FreeFromMinimiser (stitch is the inverse of strip for every fixed mask), NoSuccessNoReturn exhaustively for 3 parameters. FitClosed.tla computes exact rational optima of two counting families. Binding B: hook H4 records every real fit (what shim received/produced, what the minimiser returned, what the caller got) and TLC validates each trace against TraceFit.tla in the order lane (exact comparisons of observed floats), including the honest-objective clause (re-evaluation through Model.logpdf). Binding A: real fits over optimiser x do_grad x do_stitch x backend must attain the exact optimum on the closed-form families and beat every point of the competitor set (the minimiser's choice set of Fit.tla) on a 3-parameter nuisance model. Protocol clauses are model-checked; global optimality is explored, not decided (DESIGN section 5).",
                 note="optimality beyond closed forms / finite competitor sets is not decided; tolerances: SLSQP 1e-5+1e-7|f|, MIGRAD 1e-3 (1e-2 at a bound optimum), calibrated on the unchanged tree and frozen; KF-C05-allfixed is a recorded finding",
                 technique="TLA+ protocol state machine (TLC) + TLC validation of hook traces (order lane) + closed-form replay"),
+    "C06": dict(engine="teststat", design="4/C06",
+                text="TestStat.tla enumerates the complete case table of the five statistics over order facts (cmp(muhat,mu), cmp(muhat,0), cmp(mu,0), sign of the likelihood-ratio difference) and TLC proves that the coded program (conditional fit at mu or at 0 for q0, free fit, subtraction, clip at 0, one-sided zeroing with the operators as written) equals the definition, is non-negative and tests the right value. Scenarios from FitClosed.tla (counts above/at/below the hypothesis, zero counts, zero and negative POI lower bound) are run through the real statistics and compared with the exact closed-form value; every call (closed-form models and a nuisance model) is recorded (driver-side ts.call/ts.return around the H4 fit records) and TLC decides on the observed floats, in the order lane, that the first fit fixed the POI at mu (0 for q0), the second left it free, the result is EXACTLY Stat(kind, muhat, mu, fun1-fun2), and the returned parameters are those of the two fits.",
+                note="closed-form value comparison is skipped within 1e-3 of muhat=mu (branch decided by fit noise; the trace check decides it exactly on the observed values); tilde variants exercised with lower bound 0, non-tilde with lower bound -5",
+                technique="TLA+ case-table refinement (TLC) + closed-form replay + TLC trace validation in the order lane"),
     "C11": dict(engine="backend", design="4/C11",
                 text="Backend.tla models the global backend state and the weak-reference callback registry; set_backend is three separate steps (swap, fire, setup). TLC explores all interleavings of object creation, deletion and switches over 4 backends x 2 precisions x 2 optimisers x default flag with <=3 objects and checks StaleFree, DeadNeverCalled, EventIffChanged, AllLiveCalled, NoDeadAfterFire and the action property DefaultUntouchedUnlessAsked. Binding A: TLC -simulate behaviours over 8 object kinds are stepped through one long-lived pyhf process; after every step the global state and the raw registry length are compared with the specification's post-state and every live model/interpolator/viewer is compared bit-exactly with a fresh one (tensor type too), fits at the end. Binding B: hooks H1/H2 record swap/trigger/call/flush/subscribe events of the same executions and TLC validates every trace against TraceBackend.tla (inferring the unlogged deaths from the logged liveness bits).",
                 note="trusted: gc.collect() kills dropped objects; object kinds of the replay are representative; jit caches of opt_jax are exercised only through the fits at the end of behaviours",
@@ -81,6 +85,8 @@ def build():
              "serves_properties": ["C03"], "kind_free_text": "exact-rational ASSUMEs on the interpolation formulas, interpolator history machine, replay on the real classes"},
             {"name": "fit", "path": "spec/Fit.tla spec/FitClosed.tla spec/TraceFit.tla harness/checks/c05.py harness/fit_replay.py harness/tracecheck.py harness/lanes.py",
              "serves_properties": ["C05"], "kind_free_text": "fit protocol state machine, exact closed-form optima, TLC trace validation of H4 hook records"},
+            {"name": "teststat", "path": "spec/TestStat.tla spec/TraceTestStat.tla spec/FitClosed.tla harness/checks/c06.py harness/teststat_replay.py",
+             "serves_properties": ["C06"], "kind_free_text": "test-statistic case table, closed-form scenarios, trace validation of wiring and exact value"},
             {"name": "backend", "path": "spec/Backend.tla spec/MC_Backend.tla spec/TraceBackend.tla harness/checks/c11.py harness/backend_replay.py harness/tracecheck.py",
              "serves_properties": ["C11"], "kind_free_text": "backend/event-registry state machine, simulated behaviours replayed, hook traces validated by TLC"},
             {"name": "hfvalidity", "path": "spec/MC_HFValidity.tla harness/checks/c20.py harness/validity.py",
